@@ -4,6 +4,7 @@ import GeoVerif.Model.IntersectFix
 import GeoVerif.Spec.RealInst
 import GeoVerif.Proofs.VPTree
 import GeoVerif.Proofs.VPTreeInit
+import GeoVerif.Proofs.IntersectCover
 import Mathlib.Tactic.Ring
 import Mathlib.Tactic.LinearCombination
 import Mathlib.Tactic.FieldSimp
@@ -20,7 +21,11 @@ import Mathlib.Tactic.Linarith
   `nearest_neighbor_correct` (`Search ∘ Initialize` = brute force, no hypothesis on the tree).
 * Projections: exact-real theorems about the wrapper formulas of `Model/GeodProj.lean` around an arbitrary geodesic
   kernel.
-* `Intersect`: no theorem (the tiling search is validated by the oracles of the harness only).
+* `Intersect`: theorems about the kernel-parametric model `Model/IntersectSearch.lean` of the search bookkeeping (`Basic`'s
+  iteration skeleton, `ClosestInt`, `NextInt`, `SegmentInt`, `AllInt0`, the `XPoint` comparators) — the same definitions
+  the driver executes on the kernel values of the real object — for *every* kernel: what the comparators are, what each
+  search returns relative to the kernel's answers, and completeness under a stated contract of `Basic` (the covering
+  argument).  The start tables `ix`, `iy` and `numit_` are those of the current source (`Gen/IntersectC.lean`).
 -/
 namespace GeoVerif.Props.C17
 open GeoVerif GeoVerif.GeodProj
@@ -127,7 +132,7 @@ theorem cass_on_meridian (dlon sig12 azi1 azi2 da : ℝ) (neg : Bool) :
       (if |dlon| ≤ 90 then (if neg then 90 - da else 90 + da) else (if neg then -90 - da else -90 + da)) := by
   by_cases h : |dlon| ≤ 90 <;> cases neg <;> simp [cassForwardXA, ofNat_real, h]
 
-/-! ## Intersect: the closed-form helpers (no theorem about the tiling search itself) -/
+/-! ## Intersect: the closed-form helpers -/
 open GeoVerif.IntersectFix
 
 /-- `fixcoincident` moves an intersection `p` of coincident geodesics (orientation `c = ±1`) along the line of coincident
@@ -162,6 +167,428 @@ theorem segmentmode_zero_iff (sx sy : ℝ) (p : XP ℝ) :
   simp only [segmentmode, ltb_real, leb_real, ofNat_real, decide_eq_true_eq, Nat.cast_zero]
   by_cases h1 : p.x < 0 <;> by_cases h2 : p.x ≤ sx <;> by_cases h3 : p.y < 0 <;> by_cases h4 : p.y ≤ sy <;>
     simp [h1, h2, h3, h4] <;> (try constructor) <;> (try linarith)
+
+
+/-! ## Intersect: the constants and tables of the current source -/
+open GeoVerif.IntersectSearch
+
+/-- the defining expressions extracted from the current `Intersect.cpp` are the ones the model uses: pruning thresholds
+    `2 t1 − d − δ` (Closest: `d = _d1`, Next: `_d2`, All: `d3`), early-exit radius `_t1`, corner exclusion radius `2 _t1`,
+    `maxdistx = maxdist + δ`, `_d1 = _t2/2`, `_d2 = 2 _t3/3`, `_d3 = _t4 − δ`, the constructor's check
+    `_d1 < _d3 ∧ _d2 < _d3 ∧ _d2 < 2 _t1`, `_eps = 3 ε`, `_tol = d ε^(3/4)`, `δ = d ε^(1/5)`; five starts for Closest, eight for
+    Next, a positive iteration cap -/
+theorem intersect_constants_of_source :
+    Gen.IntersectC.closestSkip = [2, -1, -1] ∧ Gen.IntersectC.nextSkip = [2, -1, -1] ∧ Gen.IntersectC.allSkip = [2, -1, -1] ∧
+    Gen.IntersectC.closestStop = [1] ∧ Gen.IntersectC.segCorner = [2] ∧ Gen.IntersectC.allMaxdistx = [1, 1] ∧
+    Gen.IntersectC.d1def = [1 / 2] ∧ Gen.IntersectC.d2def = [2 / 3] ∧ Gen.IntersectC.d3def = [1, -1] ∧
+    Gen.IntersectC.ctorChecks = [([0, 1, 0, 0], [0, 0, 0, 1]), ([0, 0, 1, 0], [0, 0, 0, 1]), ([0, 0, 1, 0], [2, 0, 0, 0])] ∧
+    Gen.IntersectC.epsMul = 3 ∧ Gen.IntersectC.tolExp = 3 / 4 ∧ Gen.IntersectC.deltaExp = 1 / 5 ∧
+    Gen.IntersectC.closestIx.length = 5 ∧ Gen.IntersectC.closestIy.length = 5 ∧
+    Gen.IntersectC.nextIx.length = 8 ∧ Gen.IntersectC.nextIy.length = 8 ∧ 0 < Gen.IntersectC.numit := by
+  decide +kernel
+
+/-- the first start of `ClosestInt` is `p0` itself and the eight starts of `NextInt` all lie at L1 distance `2 d2` from the
+    origin (so the origin's own tile is never a start) -/
+theorem intersect_start_tables :
+    (Gen.IntersectC.closestIx.head?, Gen.IntersectC.closestIy.head?) = (some 0, some 0) ∧
+    ((Gen.IntersectC.nextIx.zip Gen.IntersectC.nextIy).all fun o => o.1.natAbs + o.2.natAbs == 2) = true := by
+  decide
+
+/-! ## Intersect: the `XPoint` comparators -/
+
+/-- **incomparability of `SetComp::operator()` is `SetComp::eq`** (the tolerance relation `Dist(p, q) ≤ δ`), for the repaired
+    comparator (d3a4710) … -/
+theorem setcomp_incomparable_iff_eq (δ : ℝ) (hδ : 0 ≤ δ) (p q : XP ℝ) :
+    (clt δ p q = false ∧ clt δ q p = false) ↔ ceq δ p q = true := clt_incomparable_iff δ hδ p q
+
+/-- … and for the comparator before the repair: what finding F58 was about is *transitivity*, not the equivalence -/
+theorem setcomp_old_incomparable_iff_eq (δ : ℝ) (hδ : 0 ≤ δ) (p q : XP ℝ) :
+    (cltOld δ p q = false ∧ cltOld δ q p = false) ↔ ceq δ p q = true := cltOld_incomparable_iff δ hδ p q
+
+/-- `RankPoint` refines the distance from `p0`: what `std::sort` is given is a lexicographic order on `(Dist, x, y)` -/
+theorem rankpoint_refines_dist (p0 p q : XP ℝ) :
+    (rlt p0 p q = true → dist p p0 ≤ dist q p0) ∧ (rlt p0 p q = false → dist q p0 ≤ dist p p0) :=
+  ⟨rlt_key_le p0 p q, rlt_false_key_le p0 p q⟩
+
+/--
+**The repaired `SetComp` is a strict weak order, with `SetComp::eq` as its incomparability, on every point set `S` that is
+`Consistent`**: "x within δ" and "L1 within δ" are transitive on `S` and, inside a class of x-close points, the δ-classes are
+convex in `y`.  Irreflexive, asymmetric, transitive, and incomparability (= `eq`, previous theorem) is transitive.
+(This is what `std::set<XPoint, SetComp>` needs of its comparator; it is the hypothesis of `all_duplicate_free`.)
+-/
+theorem setcomp_strict_weak_order (δ : ℝ) (hδ : 0 ≤ δ) (S : XP ℝ → Prop) (hS : Consistent δ S) :
+    (∀ p, clt δ p p = false) ∧ (∀ p q, clt δ p q = true → clt δ q p = false) ∧
+    (∀ p q r, S p → S q → S r → clt δ p q = true → clt δ q r = true → clt δ p r = true) ∧
+    (∀ p q r, S p → S q → S r → ceq δ p q = true → ceq δ q r = true → ceq δ p r = true) :=
+  ⟨clt_irrefl δ hδ, clt_asymm δ, fun _ _ _ hp hq hr => clt_trans_on hS hp hq hr, fun _ _ _ hp hq hr => ceq_trans_on hS hp hq hr⟩
+
+/-- a sufficient, easily checked condition: every coordinate difference within `S` is either at most `η` or larger than
+    `δ + η`, with `2 η ≤ δ` (intersections known to `η`, distinct ones separated by more than `δ + η` in each coordinate in which
+    they differ at all — e.g. the lattice of intersections of two great circles, or the intersections `(x₀ ± ε, y_k)` of a line
+    through a pole with a closed geodesic, the configuration of finding F58) -/
+theorem setcomp_consistent_of_gapped (δ η : ℝ) (hη : 0 ≤ η) (h2 : 2 * η ≤ δ) (S : XP ℝ → Prop) (hg : Gapped δ η S) :
+    Consistent δ S := gapped_consistent hη h2 hg
+
+/-- the three points of the next two statements, `δ = 10`, `η = 1` -/
+def exP : XP ℝ := ⟨1, 0, 0⟩
+def exQ : XP ℝ := ⟨0, 1, 0⟩
+noncomputable def exR : XP ℝ := ⟨1 / 2, 100, 0⟩
+def exS (p : XP ℝ) : Prop := p = exP ∨ p = exQ ∨ p = exR
+
+/-- non-vacuity: `{(1, 0), (0, 1), (1/2, 100)}` is gapped for `δ = 10`, `η = 1` -/
+theorem exS_gapped : Gapped 10 1 exS := by
+  intro p q hp hq
+  rcases hp with rfl | rfl | rfl <;> rcases hq with rfl | rfl | rfl <;> norm_num [exP, exQ, exR, abs_le]
+
+/--
+**The comparator before d3a4710 was not a strict weak order even on such a set**: on `{P, Q, R}` (x-coordinates equal to
+round-off, the configuration of finding F58) it has `P ~ Q` (equal in the sense of `eq`), `Q < R` and `R < P`: an element
+equivalent to `Q` compares the other way round — `set::find` misses existing members.  The repaired comparator orders the
+same three points consistently (`P ~ Q`, `P < R`, `Q < R`).
+-/
+theorem setcomp_old_not_strict_weak_order :
+    ceq 10 exP exQ = true ∧ cltOld 10 exQ exR = true ∧ cltOld 10 exR exP = true ∧
+    (ceq 10 exP exQ = true ∧ clt 10 exP exR = true ∧ clt 10 exQ exR = true ∧ clt 10 exR exP = false) := by
+  refine ⟨?_, ?_, ?_, ?_, ?_, ?_, ?_⟩
+  · rw [ceq_iff, dist_real]; norm_num [exP, exQ, abs_le]
+  · rw [cltOld_iff, dist_real]; norm_num [exQ, exR]
+  · rw [cltOld_iff, dist_real]; norm_num [exP, exR]
+  · rw [ceq_iff, dist_real]; norm_num [exP, exQ, abs_le]
+  · rw [clt_iff, dist_real]; norm_num [exP, exR]
+  · rw [clt_iff, dist_real]; norm_num [exQ, exR]
+  · rw [← Bool.not_eq_true, clt_iff, dist_real]; norm_num [exP, exR]
+
+/--
+**The repaired comparator is still not transitive on arbitrary point sets** (residual weakness, not reachable from the
+sampled geometries): for `δ = 10` the pairwise distinct points `(12, 0)`, `(6, 50)`, `(0, 100)` form a cycle
+`p < q < r < p` — their x-coordinates differ by more than `δ/2` but less than `δ` from one to the next.  `Consistent` excludes it.
+-/
+theorem setcomp_not_transitive_in_general :
+    clt 10 (⟨12, 0, 0⟩ : XP ℝ) ⟨6, 50, 0⟩ = true ∧ clt 10 (⟨6, 50, 0⟩ : XP ℝ) ⟨0, 100, 0⟩ = true ∧
+    clt 10 (⟨0, 100, 0⟩ : XP ℝ) ⟨12, 0, 0⟩ = true := by
+  refine ⟨?_, ?_, ?_⟩ <;> rw [clt_iff, dist_real] <;> norm_num
+
+/-! ## Intersect: `Basic`'s iteration skeleton -/
+
+/-- `Basic` calls the kernel at least once and at most `numit_` times; if it stops before the cap then either a coincidence
+    was flagged (`c ≠ 0`) or the last Newton step was within the tolerance — for every kernel `Spherical` -/
+theorem basic_converged_unless_capped (sph : XP ℝ → XP ℝ) (tol : ℝ) (p0 : XP ℝ) :
+    (basic sph tol p0).2 ≤ Gen.IntersectC.numit ∧
+    ((basic sph tol p0).2 < Gen.IntersectC.numit →
+      (basic sph tol p0).1.c ≠ 0 ∨ ∃ q, (basic sph tol p0).1 = XP.add q (sph q) ∧ dist0 (sph q) ≤ tol) := by
+  obtain ⟨h1, _, h3⟩ := basicLoop_spec sph tol Gen.IntersectC.numit p0 0
+  exact ⟨by simpa [basic] using h1, fun h => h3 (by simpa [basic] using h)⟩
+
+/-- the oscillating kernel of the next theorem: the Newton step flips between `x = 0` and `x = 1` -/
+noncomputable def oscSph (q : XP ℝ) : XP ℝ := ⟨1 - 2 * q.x, 0, 0⟩
+
+theorem oscLoop (tol : ℝ) (ht : tol < 1) : ∀ (fuel n : Nat) (q : XP ℝ), q.c = 0 → q.y = 0 → (q.x = 0 ∨ q.x = 1) →
+    (basicLoop oscSph tol fuel q n).2 = n + fuel ∧ (basicLoop oscSph tol fuel q n).1.c = 0 ∧
+    (basicLoop oscSph tol fuel q n).1.y = 0 ∧ ((basicLoop oscSph tol fuel q n).1.x = 0 ∨ (basicLoop oscSph tol fuel q n).1.x = 1) := by
+  intro fuel
+  induction fuel with
+  | zero => intro n q hc hy hx; exact ⟨rfl, hc, hy, hx⟩
+  | succ k ih =>
+    intro n q hc hy hx
+    simp only [basicLoop]
+    have hstep : dist0 (oscSph q) = 1 := by
+      rcases hx with h | h <;> simp [dist0_real, oscSph, h] <;> norm_num
+    have hc1 : (XP.add q (oscSph q)).c = 0 := by simp [XP.add, oscSph, hc]
+    have hc2 : RealLike.ltb tol (dist0 (oscSph q)) = true := by rw [hstep]; simp [ht]
+    have hcont : ((XP.add q (oscSph q)).c != 0 || !RealLike.ltb tol (dist0 (oscSph q))) = false := by
+      rw [hc1, hc2]; rfl
+    rw [hcont]
+    simp only [Bool.false_eq_true, if_false]
+    obtain ⟨a, b, c, d⟩ := ih (n + 1) (XP.add q (oscSph q)) (by simp [XP.add, oscSph, hc]) (by simp [XP.add, oscSph, hy])
+      (by rcases hx with h | h <;> simp [XP.add, oscSph, h] <;> norm_num)
+    exact ⟨by omega, b, c, d⟩
+
+/--
+**`Basic` can fail silently** (the mechanism of finding F57): there is a kernel for which the iteration runs into the cap
+`numit_` and returns a point with `c = 0` from which the next Newton step is still larger than the tolerance — nothing in the
+returned `XPoint` distinguishes it from a converged intersection (`GEOGRAPHICLIB_PANIC` is `false` for `double`).  The number
+of kernel calls (`NumInverse`) is the only trace; the harness uses it to tag such queries (`basic-not-converged`).
+-/
+theorem basic_can_fail_silently : ∃ (sph : XP ℝ → XP ℝ) (tol : ℝ) (p0 : XP ℝ),
+    (basic sph tol p0).2 = Gen.IntersectC.numit ∧ (basic sph tol p0).1.c = 0 ∧ tol < dist0 (sph (basic sph tol p0).1) := by
+  refine ⟨oscSph, 1 / 2, ⟨0, 0, 0⟩, ?_⟩
+  obtain ⟨a, b, c, d⟩ := oscLoop (1 / 2) (by norm_num) Gen.IntersectC.numit 0 ⟨0, 0, 0⟩ rfl rfl (Or.inl rfl)
+  refine ⟨by simpa [basic] using a, b, ?_⟩
+  have : dist0 (oscSph (basic oscSph (1 / 2) ⟨0, 0, 0⟩).1) = 1 := by
+    show dist0 (oscSph (basicLoop oscSph (1 / 2) Gen.IntersectC.numit ⟨0, 0, 0⟩ 0).1) = 1
+    rcases d with h | h <;> (simp only [dist0_real, oscSph]; rw [h]; norm_num)
+  rw [this]; norm_num
+
+/-! ## Intersect: `ClosestInt` -/
+
+/--
+**`Closest` returns a kernel answer that minimises the distance from `p0` among the answers of the starts it visited**, for every
+kernel `Basic` and every `p0`, up to the equality tolerance: the result is `fixcoincident(p0, Basic(s))` for a visited start
+`s`; every visited start is one of the five of the table; and for every visited start `s`
+`Dist(result, p0) ≤ Dist(fixcoincident(p0, Basic(s)), p0) + δ` (the `δ` is the price of `_comp.eq(q, qx)`, which discards an
+answer in the δ-class of the best point before comparing distances; after the early exit `Dist < _t1` the earlier answers are
+at least `_t1` away).  The result is never the unset (NaN) point.
+-/
+theorem closest_minimal_among_visited (C : Consts ℝ) (hδ : 0 ≤ C.delta) (basic : XP ℝ → XP ℝ) (p0 : XP ℝ) :
+    ∃ b, (closestInt C basic p0).q = some b ∧
+      (∃ s ∈ (closestInt C basic p0).visited, b = fixc p0 (basic s)) ∧
+      (∀ s ∈ (closestInt C basic p0).visited, s ∈ closestStarts C p0 ∧ dist b p0 ≤ dist (fixc p0 (basic s)) p0 + C.delta) := by
+  obtain ⟨post, hvis, hsome⟩ := closestInt_spec C hδ basic p0
+  have hne : closestStarts C p0 ≠ [] := by
+    simp [closestStarts, offsets, Gen.IntersectC.closestIx, Gen.IntersectC.closestIy]
+  cases hq : (closestInt C basic p0).q with
+  | none => exact absurd hq (hsome hne)
+  | some b =>
+    refine ⟨b, rfl, post.isans b hq, fun s hs => ⟨hvis s hs, ?_⟩⟩
+    obtain ⟨b', hb', hm⟩ := post.min s hs
+    rw [hq] at hb'; cases hb'; exact hm
+
+/--
+**Completeness of `Closest` under the contract of `Basic`** (the covering argument).  Let `I` be the set of intersections and
+suppose the kernel never reports coincidence, every answer is within `ε ≤ δ` of an intersection, distinct intersections are at
+least `2 _t1` apart (L1), and a start within `_d1` (the tile radius; the constructor checks `_d1 < _d3 = _t4 − δ`, `_t4` being
+the capture radius) of an intersection converges to it.  Then the returned point is within `ε` of an intersection and **no
+intersection within `2 _d1 = _t2` of `p0` is closer to `p0` than the returned point by more than `ε + δ`** — whatever the
+pruning flags skipped and whether or not the loop left early.  (The five starts of the table of the current source cover the
+L1 ball of radius `2 _d1`: `closestStarts_cover`.)
+-/
+theorem closest_complete (C : Consts ℝ) (basic : XP ℝ → XP ℝ) (p0 : XP ℝ) (I : XP ℝ → Prop) (ε : ℝ)
+    (hδ : 0 ≤ C.delta) (hεδ : ε ≤ C.delta) (K : Contract C basic I ε C.d1) :
+    ∃ b, (closestInt C basic p0).q = some b ∧ (∃ a, I a ∧ dist b a ≤ ε) ∧
+      ∀ a, I a → dist a p0 ≤ 2 * C.d1 → dist b p0 ≤ dist a p0 + ε + C.delta :=
+  closestInt_complete' C basic p0 I ε hδ hεδ K
+
+/-! ## Intersect: `NextInt` -/
+
+/--
+**`Next` returns a candidate of minimal L1 norm among the candidates of the starts it visited, the origin class excluded**, for
+every kernel: the result is the initial `(big, 0)` (`big` = ∞ in the code: nothing found) or a candidate of a visited start;
+it is not farther from the origin than any candidate of any visited start; the candidates of a start (`candsOf`) are: nothing
+if `Basic` lands in the δ-class of the origin with `c = 0`, the two conjugate points `(s, c s)` if it reports coincident lines
+there, and the centred answer otherwise; every visited start is one of the eight of the table.
+-/
+theorem next_minimal_among_candidates (C : Consts ℝ) (basic : XP ℝ → XP ℝ) (conj : ℝ → ℝ) (big : ℝ) :
+    ((nextInt C basic conj big).q = mk0 big zero ∨
+      ∃ s ∈ (nextInt C basic conj big).visited, (nextInt C basic conj big).q ∈ candsOf C basic conj s) ∧
+    (∀ s ∈ (nextInt C basic conj big).visited, s ∈ nextStarts C ∧
+      ∀ a ∈ candsOf C basic conj s, dist0 (nextInt C basic conj big).q ≤ dist0 a) ∧
+    (nextInt C basic conj big).nan = false := by
+  obtain ⟨inv, hvis⟩ := nextInt_spec C basic conj big
+  exact ⟨inv.src, fun s hs => ⟨hvis s hs, inv.min s hs⟩, inv.nonan⟩
+
+/-- no candidate is in the origin class with `c = 0` (what "excluding p = [0,0]" means in the code) -/
+theorem next_excludes_origin (C : Consts ℝ) (basic : XP ℝ → XP ℝ) (conj : ℝ → ℝ) (s a : XP ℝ) (ha : a ∈ candsOf C basic conj s)
+    (hb : (fixc (mk0 zero zero) (basic s)).c = 0) : ceq C.delta (mk0 zero zero) a = false := by
+  unfold candsOf at ha
+  simp only at ha
+  by_cases hz : ceq C.delta (mk0 zero zero) (fixc (mk0 zero zero) (basic s)) = true
+  · simp [hb, hz] at ha
+  · simp [hb, hz] at ha; rw [ha]; simpa using hz
+
+/--
+**Completeness of `Next` under the contract of `Basic`** with capture radius `_d2`: for every intersection `a` outside the
+origin class (`δ + ε < |a|₁`) with `_d2 ≤ |a|₁ ≤ 3 _d2 = 2 _t3` the returned point is at most `ε` farther from the origin than
+`a`.  (The eight starts of the table of the current source cover that annulus, `nextStarts_cover`; the hole `|a|₁ < _d2` holds
+no other intersection because `_d2 < 2 _t1` — the constructor's third check.)
+-/
+theorem next_complete (C : Consts ℝ) (basic : XP ℝ → XP ℝ) (conj : ℝ → ℝ) (big : ℝ) (I : XP ℝ → Prop) (ε : ℝ)
+    (hεδ : ε ≤ C.delta) (K : Contract C basic I ε C.d2) :
+    ∀ a, I a → C.delta + ε < dist0 a → C.d2 ≤ dist0 a → dist0 a ≤ 3 * C.d2 →
+      dist0 (nextInt C basic conj big).q ≤ dist0 a + ε :=
+  nextInt_complete' C basic conj big I ε hεδ K
+
+/-! ## Intersect: `SegmentInt` -/
+
+/--
+**`segmode = 0` ⇔ the returned point lies within both segments**, for the full function (every kernel, including the corner
+override): the indicator returned with the point is `segmentmode` of that point (`segmentInt_segmode`), hence
+`segmode = 0 ↔ 0 ≤ x ≤ sx ∧ 0 ≤ y ≤ sy` (`segmentmode_zero_iff`).
+-/
+theorem segment_segmode_zero_iff (C : Consts ℝ) (basic : XP ℝ → XP ℝ) (sx sy : ℝ) (o : SOut ℝ)
+    (h : segmentInt C basic sx sy = some o) :
+    o.segmode = 0 ↔ (0 ≤ o.q.x ∧ o.q.x ≤ sx) ∧ (0 ≤ o.q.y ∧ o.q.y ≤ sy) := by
+  rw [segmentInt_segmode C basic sx sy o h]; exact segmentmode_zero_iff sx sy o.q
+
+/-- the returned `segmode` encodes the side of each segment as documented: `segmode = 3 kx + ky` with `kx = −1, 0, 1` for
+    `x < 0`, `0 ≤ x ≤ sx`, `sx < x`, and `ky` likewise -/
+theorem segment_segmode_sides (C : Consts ℝ) (basic : XP ℝ → XP ℝ) (sx sy : ℝ) (o : SOut ℝ)
+    (h : segmentInt C basic sx sy = some o) :
+    ∃ kx ky : Int, o.segmode = 3 * kx + ky ∧
+      ((kx = -1 ∧ o.q.x < 0) ∨ (kx = 0 ∧ 0 ≤ o.q.x ∧ o.q.x ≤ sx) ∨ (kx = 1 ∧ sx < o.q.x)) ∧
+      ((ky = -1 ∧ o.q.y < 0) ∨ (ky = 0 ∧ 0 ≤ o.q.y ∧ o.q.y ≤ sy) ∨ (ky = 1 ∧ sy < o.q.y)) := by
+  rw [segmentInt_segmode C basic sx sy o h]
+  simp only [segmentmode, ltb_real, leb_real, ofNat_real, decide_eq_true_eq, Nat.cast_zero]
+  have side : ∀ v sv : ℝ, ∃ k : Int, (if v < 0 then (-1 : Int) else if v ≤ sv then 0 else 1) = k ∧
+      ((k = -1 ∧ v < 0) ∨ (k = 0 ∧ 0 ≤ v ∧ v ≤ sv) ∨ (k = 1 ∧ sv < v)) := by
+    intro v sv
+    by_cases h1 : v < 0
+    · exact ⟨-1, by simp [h1], Or.inl ⟨rfl, h1⟩⟩
+    · by_cases h2 : v ≤ sv
+      · exact ⟨0, by simp [h1, h2], Or.inr (Or.inl ⟨rfl, not_lt.mp h1, h2⟩)⟩
+      · exact ⟨1, by simp [h1, h2], Or.inr (Or.inr ⟨rfl, not_le.mp h2⟩)⟩
+  obtain ⟨kx, ex, px⟩ := side o.q.x sx
+  obtain ⟨ky, ey, py⟩ := side o.q.y sy
+  rw [ex, ey]
+  exact ⟨kx, ky, by ring, px, py⟩
+
+/-! ## Intersect: `AllInt0` -/
+
+/-- **`All` is sorted by the L1 distance from `p0` and contains only points within `maxdist`** — for every kernel, every radius,
+    every number of tiles and every fuel -/
+theorem all_sorted_within_maxdist (C : Consts ℝ) (basic : XP ℝ → XP ℝ) (conj2 : ℝ → ℝ → ℝ) (maxdist : ℝ) (p0 : XP ℝ) (m fuel : Nat) :
+    (allInt0 C basic conj2 maxdist p0 m fuel).res.Pairwise (fun a b => dist a p0 ≤ dist b p0) ∧
+    ∀ r ∈ (allInt0 C basic conj2 maxdist p0 m fuel).res, dist r p0 ≤ maxdist :=
+  ⟨allInt0_sorted C basic conj2 maxdist p0 m fuel, allInt0_within C basic conj2 maxdist p0 m fuel⟩
+
+/--
+**`All` is duplicate-free with respect to the tolerance equivalence** (`no two listed points have `Dist(p, q) ≤ δ`) for every
+kernel whose answers stay in a set `S` on which the repaired comparator is transitive (e.g. a `Consistent` set, by
+`setcomp_strict_weak_order`): the raw answers `Basic(s)`, their centred images when `c ≠ 0`, and the points of the line of
+coincident intersections through them.  (The hypothesis is about the comparator, not about the search; without it
+`std::set` itself has no specified behaviour — `setcomp_not_transitive_in_general`.)
+-/
+theorem all_duplicate_free (C : Consts ℝ) (basic : XP ℝ → XP ℝ) (conj2 : ℝ → ℝ → ℝ) (maxdist : ℝ) (p0 : XP ℝ) (m fuel : Nat)
+    (S : XP ℝ → Prop)
+    (htr : ∀ p q r, S p → S q → S r → clt C.delta p q = true → clt C.delta q r = true → clt C.delta p r = true)
+    (hb : ∀ s, S (basic s)) (hf : ∀ s, (basic s).c ≠ 0 → S (fixc p0 (basic s)))
+    (hc : ∀ s sa, (basic s).c ≠ 0 → S (XP.add (fixc p0 (basic s)) (mk0 sa (ofC (basic s).c * sa)))) :
+    (allInt0 C basic conj2 maxdist p0 m fuel).res.Pairwise (fun a b => ceq C.delta a b = false) :=
+  allInt0_nodup C basic conj2 maxdist p0 m fuel S htr hb hf hc
+
+/--
+**Completeness of `All` under the contract of `Basic`** (the covering argument: the start grid spacing against the capture
+radius).  For `m ≥ 1` tiles per side (the code takes `m = ⌈maxdistx / _d3⌉`, so that the tile radius `maxdistx / m` is at most
+`_d3 = _t4 − δ`), a kernel that never reports coincidence, whose answers are within `ε ≤ δ` of intersections, with distinct
+intersections `2 _t1` apart and `2 ε + δ < 2 _t1`, and which converges to an intersection from every start within the tile
+radius of it: **every intersection `a` with `Dist(a, p0) + ε ≤ maxdist` is listed** (a point within `ε` of it is in the
+result).  The proof is the covering lemma `allStarts_cover` (the `m²` or `m² + 1` starts cover the L1 ball of radius
+`maxdistx` by L1 balls of the tile radius) and the soundness of the pruning test `Dist(q, start) < 2 _t1 − d3 − δ` (a skipped
+start can only lead to an intersection that is already listed) and of the de-duplication (`find` succeeds only on a point of
+the same δ-class, which is the same intersection).
+Not covered by this statement (hence the name): kernels that report coincident lines (`c ≠ 0`: the conjugate-point loop and the
+erasure of earlier answers on the coincidence line), for which only `all_sorted_within_maxdist` / `all_duplicate_free` hold.
+-/
+theorem all_complete_partial (C : Consts ℝ) (basic : XP ℝ → XP ℝ) (conj2 : ℝ → ℝ → ℝ) (maxdist : ℝ) (p0 : XP ℝ) (m fuel : Nat)
+    (I : XP ℝ → Prop) (ε : ℝ) (hm : 1 ≤ m) (hmax : 0 ≤ maxdist) (hδ : 0 ≤ C.delta) (hε : 0 ≤ ε) (hεδ : ε ≤ C.delta)
+    (hnum : 2 * ε + C.delta < 2 * C.t1) (K : Contract C basic I ε ((maxdist + C.delta) / m)) :
+    ∀ a, I a → dist a p0 + ε ≤ maxdist → ∃ e ∈ (allInt0 C basic conj2 maxdist p0 m fuel).res, dist e a ≤ ε :=
+  allInt0_complete' C basic conj2 maxdist p0 m fuel I ε hm hmax hδ hε hεδ hnum K
+
+/-- the start grid of `All` has exactly the `m2 = m*m + (m - 1) % 2` points the code allocates (`vector<XPoint> start(m2)` is
+    filled exactly; the commented-out `assert(h == m2)` of the source holds), for every `m ≥ 1` -/
+theorem all_starts_count (p0 : XP ℝ) (d3 : ℝ) (m : Nat) (hm : 1 ≤ m) : (allStarts p0 d3 m).length = m * m + (m - 1) % 2 :=
+  allStarts_length p0 d3 m hm
+
+/-! ### non-vacuity of the contract: two intersections `A = (0, 0)`, `B = (70, 0)` (`2 t1 = 60`), the kernel "nearer of the two" -/
+def exC : Consts ℝ := { d := 100, t1 := 30, delta := 1, d1 := 20, d2 := 25, d3 := 30, tol := 0 }
+def exA : XP ℝ := ⟨0, 0, 0⟩
+def exB : XP ℝ := ⟨70, 0, 0⟩
+noncomputable def exBasic (s : XP ℝ) : XP ℝ := if dist s exA ≤ dist s exB then exA else exB
+def exI (a : XP ℝ) : Prop := a = exA ∨ a = exB
+
+theorem exContract : Contract exC exBasic exI 0 30 := by
+  have hAB : IntersectSearch.dist exA exB = 70 := by rw [dist_real]; norm_num [exA, exB]
+  refine ⟨?_, ?_, ?_, ?_⟩
+  · intro s; unfold exBasic; split <;> rfl
+  · intro s; unfold exBasic; split
+    · exact ⟨exA, Or.inl rfl, by rw [IntersectSearch.dist_self]⟩
+    · exact ⟨exB, Or.inr rfl, by rw [IntersectSearch.dist_self]⟩
+  · intro a b ha hb hlt
+    rcases ha with rfl | rfl <;> rcases hb with rfl | rfl
+    · exact IntersectSearch.dist_self _
+    · rw [hAB] at hlt; norm_num [exC] at hlt
+    · rw [IntersectSearch.dist_symm, hAB] at hlt; norm_num [exC] at hlt
+    · exact IntersectSearch.dist_self _
+  · intro a ha s hs
+    have t := IntersectSearch.dist_triangle exA s exB
+    have e1 := IntersectSearch.dist_symm s exA
+    have e2 := IntersectSearch.dist_symm s exB
+    rw [hAB] at t
+    rcases ha with rfl | rfl
+    · have : IntersectSearch.dist s exA ≤ IntersectSearch.dist s exB := by linarith
+      unfold exBasic; rw [if_pos this, IntersectSearch.dist_self]
+    · have : ¬ IntersectSearch.dist s exA ≤ IntersectSearch.dist s exB := by intro hc; linarith
+      unfold exBasic; rw [if_neg this, IntersectSearch.dist_self]
+
+/-- … so the three completeness theorems have non-trivial instances, e.g. `All(maxdist = 119, p0 = A, m = 4)` lists `B` -/
+example : ∃ e ∈ (allInt0 exC exBasic (fun _ s => s) 119 exA 4 7).res, IntersectSearch.dist e exB ≤ 0 :=
+  all_complete_partial exC exBasic (fun _ s => s) 119 exA 4 7 exI 0 (by norm_num) (by norm_num) (by norm_num [exC]) (le_refl _)
+    (by norm_num [exC]) (by norm_num [exC])
+    (by rw [show ((119 : ℝ) + exC.delta) / ((4 : ℕ) : ℝ) = 30 by norm_num [exC]]; exact exContract) exB (Or.inr rfl)
+    (by rw [IntersectSearch.dist_symm, show IntersectSearch.dist exA exB = 70 by rw [dist_real]; norm_num [exA, exB]]; norm_num)
+
+/-! ## Intersect: one contract for the three searches -/
+
+/-- the contract is monotone in the capture radius -/
+theorem contract_mono {C : Consts ℝ} {basic : XP ℝ → XP ℝ} {I : XP ℝ → Prop} {ε ρ ρ' : ℝ} (h : ρ' ≤ ρ)
+    (K : Contract C basic I ε ρ) : Contract C basic I ε ρ' :=
+  ⟨K.c0, K.snd, K.sep, fun a ha s hs => K.cap a ha s (le_trans hs h)⟩
+
+/-- what the constructor's sanity check (`ctorOk`, the model of `if (!(_d1 < _d3 && _d2 < _d3 && _d2 < 2 * _t1)) throw`) says -/
+theorem ctor_check_spec (t1 d1 d2 d3 : ℝ) : ctorOk t1 d1 d2 d3 = true ↔ d1 < d3 ∧ d2 < d3 ∧ d2 < 2 * t1 := by
+  simp [ctorOk, ltb_real, two_real, and_assoc]
+
+/--
+**One contract, three searches.**  On an object that passed the constructor's check, a kernel `Basic` that satisfies the
+contract with capture radius `_d3` (= `_t4 − δ`: every start within `_d3` of an intersection converges to it; never reports
+coincidence; answers within `ε ≤ δ` of intersections; intersections `2 _t1` apart; `2 ε + δ < 2 _t1`) makes
+
+* `Closest` return a point within `ε` of an intersection such that no intersection within `2 _d1` of `p0` is closer by more
+  than `ε + δ`,
+* `Next` return a point at most `ε` farther from the origin than any intersection `a` outside the origin class with
+  `_d2 ≤ |a|₁ ≤ 3 _d2`,
+* `All(maxdist)` list (within `ε`) every intersection with `Dist(a, p0) + ε ≤ maxdist`, for every number of tiles `m ≥ 1`
+  with `maxdist + δ ≤ m _d3` — in particular for `m = ⌈(maxdist + δ) / _d3⌉`, the value the code uses.
+
+This is the covering argument of the class in one statement: the tile radii `_d1`, `_d2`, `maxdistx / m` never exceed the
+capture radius because the constructor checked `_d1 < _d3`, `_d2 < _d3` and the code chooses `m` accordingly.
+-/
+theorem intersect_complete_of_capture (C : Consts ℝ) (basic : XP ℝ → XP ℝ) (I : XP ℝ → Prop) (ε : ℝ)
+    (hctor : ctorOk C.t1 C.d1 C.d2 C.d3 = true) (hδ : 0 ≤ C.delta) (hε : 0 ≤ ε) (hεδ : ε ≤ C.delta)
+    (hnum : 2 * ε + C.delta < 2 * C.t1) (K : Contract C basic I ε C.d3) :
+    (∀ p0, ∃ b, (closestInt C basic p0).q = some b ∧ (∃ a, I a ∧ dist b a ≤ ε) ∧
+        ∀ a, I a → dist a p0 ≤ 2 * C.d1 → dist b p0 ≤ dist a p0 + ε + C.delta) ∧
+    (∀ conj big a, I a → C.delta + ε < dist0 a → C.d2 ≤ dist0 a → dist0 a ≤ 3 * C.d2 →
+        dist0 (nextInt C basic conj big).q ≤ dist0 a + ε) ∧
+    (∀ conj2 maxdist p0 (m fuel : Nat), 1 ≤ m → 0 ≤ maxdist → maxdist + C.delta ≤ m * C.d3 →
+        ∀ a, I a → dist a p0 + ε ≤ maxdist → ∃ e ∈ (allInt0 C basic conj2 maxdist p0 m fuel).res, dist e a ≤ ε) := by
+  obtain ⟨h1, h2, _⟩ := (ctor_check_spec _ _ _ _).mp hctor
+  refine ⟨fun p0 => closest_complete C basic p0 I ε hδ hεδ (contract_mono h1.le K),
+    fun conj big => next_complete C basic conj big I ε hεδ (contract_mono h2.le K), ?_⟩
+  intro conj2 maxdist p0 m fuel hm hmax hmd
+  have hmpos : (0 : ℝ) < m := by exact_mod_cast hm
+  have : (maxdist + C.delta) / m ≤ C.d3 := by rw [div_le_iff₀ hmpos]; linarith
+  exact all_complete_partial C basic conj2 maxdist p0 m fuel I ε hm hmax hδ hε hεδ hnum (contract_mono this K)
+
+/-- non-vacuity: the two-intersection example passes the constructor check and satisfies the contract with capture radius `_d3`,
+    so all three conclusions hold for it; e.g. `Closest(p0 = (10, 0))` returns a point not farther from `p0` than `A` by more than `δ`,
+    and `Next` a point not farther from the origin than `B` -/
+example : ctorOk exC.t1 exC.d1 exC.d2 exC.d3 = true := by rw [ctor_check_spec]; norm_num [exC]
+example : ∃ b, (closestInt exC exBasic ⟨10, 0, 0⟩).q = some b ∧
+    IntersectSearch.dist b ⟨10, 0, 0⟩ ≤ IntersectSearch.dist exA ⟨10, 0, 0⟩ + 0 + exC.delta := by
+  obtain ⟨h, _, _⟩ := intersect_complete_of_capture exC exBasic exI 0 (by rw [ctor_check_spec]; norm_num [exC]) (by norm_num [exC]) (le_refl _)
+    (by norm_num [exC]) (by norm_num [exC]) exContract
+  obtain ⟨b, hb, _, h'⟩ := h ⟨10, 0, 0⟩
+  exact ⟨b, hb, h' exA (Or.inl rfl) (by rw [dist_real]; norm_num [exA, exC])⟩
+example (conj : ℝ → ℝ) (big : ℝ) : dist0 (nextInt exC exBasic conj big).q ≤ dist0 exB + 0 := by
+  obtain ⟨_, h, _⟩ := intersect_complete_of_capture exC exBasic exI 0 (by rw [ctor_check_spec]; norm_num [exC]) (by norm_num [exC]) (le_refl _)
+    (by norm_num [exC]) (by norm_num [exC]) exContract
+  exact h conj big exB (Or.inr rfl) (by rw [dist0_real]; norm_num [exB, exC]) (by rw [dist0_real]; norm_num [exB, exC])
+    (by rw [dist0_real]; norm_num [exB, exC])
+
+/-- non-vacuity of `setcomp_strict_weak_order` and `all_duplicate_free`: the gapped three-point set is `Consistent`; the answers of
+    the two-intersection kernel stay in `{A, B}`, a gapped (hence `Consistent`) set for `δ = 1`, so `All` lists no point twice -/
+example : Consistent 10 exS := setcomp_consistent_of_gapped 10 1 (by norm_num) (by norm_num) exS exS_gapped
+example (conj2 : ℝ → ℝ → ℝ) (maxdist : ℝ) (p0 : XP ℝ) (m fuel : Nat) :
+    (allInt0 exC exBasic conj2 maxdist p0 m fuel).res.Pairwise (fun a b => ceq exC.delta a b = false) := by
+  have hg : Gapped exC.delta 0 exI := by
+    intro p q hp hq
+    rcases hp with rfl | rfl <;> rcases hq with rfl | rfl <;> norm_num [exA, exB, exC]
+  have hS := setcomp_consistent_of_gapped exC.delta 0 (le_refl _) (by norm_num [exC]) exI hg
+  have hb : ∀ s, exI (exBasic s) := by intro s; unfold exBasic; split; exact Or.inl rfl; exact Or.inr rfl
+  have hc0 : ∀ s, (exBasic s).c = 0 := exContract.c0
+  exact all_duplicate_free exC exBasic conj2 maxdist p0 m fuel exI (fun _ _ _ hp hq hr => clt_trans_on hS hp hq hr) hb
+    (fun s h => absurd (hc0 s) h) (fun s _ h => absurd (hc0 s) h)
 
 /-! ## nearest neighbour: Save / Load -/
 open GeoVerif.VPTree
